@@ -58,6 +58,12 @@ def _workers(model):
 
 def run(ctx: Ctx):
     model = ctx.model
+    from .common_node import names_resolve
+    names_resolve(ctx, "C14-RN")
+    from .common_node import no_lock_reacquired
+    no_lock_reacquired(ctx, "C14-R16")
+    from .recvmsg import received_messages_reach_dispatch
+    received_messages_reach_dispatch(ctx, "C14-R15", answers=True, requests=True)
     F = fault_effects_of(model)
     ctx.note(f"fault-model raise-set fix point: {F.iterations} iterations; callable attributes "
              f"resolved: {sorted(F.callable_attrs)}")
